@@ -122,7 +122,8 @@ template <typename A> static long arr_size(const A& a) { if constexpr (meta::is_
 template <typename A> static auto* arr_data(A& a) { if constexpr (meta::is_same_v<meta::remove_cvref_t<A>, na::dynamic_ndarray<long>>) return a.data.data(); else return a.data(); }
 template <typename A> static std::string layout_check(const L& s, bool colmajor) {
     // the object is first given ANOTHER shape of the same rank (the reversed one): strides / offset functors cached by an earlier resize must not survive (seeded change m01c)
-    A a; { L rev(s.rbegin(), s.rend()); a.resize(to_sl(rev)); } a.resize(to_sl(s));
+    // ... and then a shape that differs from s in the LEADING extent only (row-major strides do not depend on it, column-major ones do: seeded changes m20 / m01d)
+    A a; { L rev(s.rbegin(), s.rend()); a.resize(to_sl(rev)); } { L lead(s); lead[0] += 1; a.resize(to_sl(lead)); } a.resize(to_sl(s));
     long N = nmc::prod(s); size_t d = s.size();
     if (arr_size(a) != N) return "size() != product(shape)";
     // reference strides for the layout
